@@ -296,12 +296,66 @@ def token_shard(args):
     return st
 
 
+# ---- space 3: literal masking in the parser (tree level) -----------------------
+LITS = ["'a'", "'long string here'", "''", "'it''s, here'", '"say ""hi"" = now"', '"x, y = 3"', "'q(1) = f(2)'",
+        "'!not;comment&'", '""', "'real :: z'", "'end module m'", "\"contains\"", "'call sub(1)'"]
+
+
+def literal_shard(args):
+    """all ordered pairs / (first element fixed) triples of literals in one declaration and one executable statement:
+    the initial values must be the literals verbatim, no extra entity or call may appear."""
+    from mc import canon, fordrun
+
+    first, triples = args
+    st = Stats()
+    combos = [(first, b) for b in range(len(LITS))]
+    if triples:
+        combos += [(first, b, c) for b in range(len(LITS)) for c in range(len(LITS))]
+    for combo in combos:
+        lits = [LITS[k] for k in combo]
+        names = [f"v{i}" for i in range(len(lits))]
+        decl = "character(len=*), parameter :: " + ", ".join(f"{n} = {l}" for n, l in zip(names, lits))
+        src = ("module m\n  implicit none\n  " + decl + "\ncontains\n  subroutine p()\n    print *, " + ", ".join(lits) +
+               "\n    call q(" + ", ".join(lits) + ")\n  end subroutine p\n  subroutine q(a, b, c)\n    character(*) :: a, b\n"
+               "    character(*), optional :: c\n  end subroutine q\nend module m\n")
+        r = fordrun.build_fast({"src/m.f90": src}, dict(display=["public", "private", "protected"], proc_internals=True))
+        st.evaluations += 1
+        st.transitions += 1
+        site = "literal-masking"
+        inp = {"lines": src.split("\n"), "shape": "literals:" + "|".join(lits)}
+        feats = {"features": "literals", "complete": True}
+        st.nontrivial.add(core.digest(lits))
+        if r.error is not None or not r.project or not r.project.modules or "ERROR in file" in r.log or "Error parsing" in r.log:
+            st.violation("exception-on-wellformed-input", site, feats, inp, repr(r.error) + r.log[-200:], "parses")
+            st.stratum(site, 1)
+            continue
+        m = r.project.modules[0]
+        got = {v.name: (canon.nb(v.initial) or "<none>").replace("\\\\", "\\") for v in m.variables}
+        want = {n: canon.nb(l) for n, l in zip(names, lits)}
+        p = [x for x in m.subroutines if x.name == "p"]
+        calls = sorted((getattr(c, "name", c) or "").lower() for c in p[0].calls) if p else None
+        procs = sorted(x.name for x in list(m.subroutines) + list(m.functions))
+        obs = dict(initials=got, calls=calls, procs=procs, types=[t.name for t in m.types])
+        exp = dict(initials=want, calls=["q"], procs=["p", "q"], types=[])
+        st.states.add(core.digest(obs))
+        if obs != exp:
+            st.violation("literal-text-interpreted-or-altered", site, feats, inp, obs, exp)
+            st.stratum(site, 1)
+        else:
+            st.stratum(site, 0)
+    return st
+
+
 def replay(path):
     import json
 
     core.use_repo()
     rec = json.loads(open(path).read())
     st = Stats()
+    if rec["site"] == "literal-masking":
+        print("\n".join(rec["input"]["lines"]))
+        print("observed", rec["observed"], "expected", rec["expected"])
+        return 1
     judge(rec["input"]["lines"], st, rec["site"], rec["input"].get("shape"))
     for v in st.violations:
         print("REPRODUCED", v["clause"], v["observed"], "expected", v["expected"])
@@ -321,6 +375,8 @@ def main(tier, replay_path=None):
         total.merge(st)
     for st in core.pmap(token_shard, [(k, T) for k in range(len(TOKENS))]):
         total.merge(st)
+    for st in core.pmap(literal_shard, [(k, tier == "thorough") for k in range(len(LITS))]):
+        total.merge(st)
     return core.finish(
         PROP,
         tier,
@@ -330,7 +386,8 @@ def main(tier, replay_path=None):
         rule=(
             f"space1: BFS over all sequences of <= {L} physical lines from a {len(LINES)}-shape alphabet, "
             "prefix expanded only when (FortranReader locals+fields, reference lexer state, output lag) with ids "
-            f"renamed is new; space2: all sequences of <= {T} tokens over {len(TOKENS)} tokens. distinct_nontrivial = "
+            f"renamed is new; space2: all sequences of <= {T} tokens over {len(TOKENS)} tokens; space3: all ordered pairs (thorough: triples) of {len(LITS)} "
+            "literals with syntax-like content in one declaration + PRINT + CALL, observed in the entity tree. distinct_nontrivial = "
             "distinct expected outputs (ids renamed) of well-formed complete inputs"
         ),
         assumptions=[
